@@ -145,7 +145,24 @@ fn op_parse_src(prop: &str, line: &str, args: &[SExp]) -> CaseResult {
     if prop == "C06" && oracle.is_none() && !has_fail && text.starts_with("(ok") {
         if let Some(all) = flat(&evs) {
             if let Ok((_, _, want_rest)) = parse_flat(&all) {
-                let got = if mode == "sync" {
+                let got = if mode == "sync" && all.len() % 2 == 1 {
+                    // the payload of a blocking parse read through the async interface: interrupted reads of the
+                    // source stay invisible there as well
+                    ipp::parser::IppParser::new(ipp::reader::IppReader::new(Script::new(evs.clone(), false))).parse().ok().and_then(|r| {
+                        let mut p = r.into_payload();
+                        futures_executor::block_on(async move {
+                            let mut out = vec![];
+                            let mut buf = [0u8; 333];
+                            loop {
+                                match AsyncReadExt::read(&mut p, &mut buf).await {
+                                    Ok(0) => break Some(out),
+                                    Ok(n) => out.extend_from_slice(&buf[..n]),
+                                    Err(_) => break Some(out),
+                                }
+                            }
+                        })
+                    })
+                } else if mode == "sync" {
                     ipp::parser::IppParser::new(ipp::reader::IppReader::new(Script::new(evs.clone(), false))).parse().ok().map(|r| drain_payload(r.into_payload()))
                 } else if !has_intr {
                     let script = Script::new(evs.clone(), false);
